@@ -28,11 +28,31 @@ type chunkWriter struct {
 	chunk  int
 	failAt int
 	short  bool // report a short write without error
+	// transient faults: the Write calls number failFrom..failTo-1 (from 0) accept nothing (or, with short, half) and the
+	// calls after them succeed again
+	transient        bool
+	failFrom, failTo int
+	calls            int
+	faulted          bool
 }
 
 var errWriter = errors.New("injected write error")
 
 func (w *chunkWriter) Write(p []byte) (int, error) {
+	call := w.calls
+	w.calls++
+	if w.transient {
+		if call >= w.failFrom && call < w.failTo && len(p) > 0 {
+			w.faulted = true
+			if w.short {
+				w.buf.Write(p[:len(p)/2])
+				return len(p) / 2, nil
+			}
+			return 0, errWriter
+		}
+		w.buf.Write(p)
+		return len(p), nil
+	}
 	n := len(p)
 	if w.failAt >= 0 && w.buf.Len()+n > w.failAt {
 		n = w.failAt - w.buf.Len()
@@ -40,6 +60,7 @@ func (w *chunkWriter) Write(p []byte) (int, error) {
 			n = 0
 		}
 		w.buf.Write(p[:n])
+		w.faulted = true
 		if w.short {
 			return n, nil
 		}
@@ -127,28 +148,62 @@ func c04Run(rc *sim.RunCtx) {
 				rc.Fail("writer-error-lost", "writer-error-lost", "the writer accepted only %d of %d bytes (short=%v) but Encode reported success", k, probe.Len(), cw.short)
 				return
 			}
+		} else if t.Bool(1, 2) {
+			// a transient fault: some Write calls in a row fail (or come up short), later ones succeed again
+			from := t.Draw(7)
+			cw := &chunkWriter{transient: true, failFrom: from, failTo: from + 1 + t.Draw(3), short: t.Bool(1, 3)}
+			err := encoder.EncodeBytecodeTo(bc, cw)
+			if cw.faulted {
+				rc.Fault("writer-error-transient")
+				if err == nil {
+					rc.Decoded = map[string]any{"script": src, "write_calls_failing": []int{cw.failFrom, cw.failTo}, "short": cw.short}
+					rc.Fail("writer-error-lost", "writer-error-lost:transient", "Write calls %d..%d of %d failed (short=%v) but Encode reported success; %d bytes reached the medium, a complete encoding has %d", cw.failFrom, cw.failTo-1, cw.calls, cw.short, cw.buf.Len(), probe.Len())
+					return
+				}
+			} else if err != nil || !bytes.Equal(cw.buf.Bytes(), probe.Bytes()) {
+				// (two encodings of one program may order map entries differently; only the length is comparable)
+				if err != nil || cw.buf.Len() != probe.Len() {
+					rc.Decoded = map[string]any{"script": src}
+					rc.Fail("encode-failed", "encode-differs-without-fault", "encoding through a writer whose faulty calls were never reached: err=%v, %d bytes instead of %d", err, cw.buf.Len(), probe.Len())
+					return
+				}
+			}
 		}
 		enc = probe.Bytes()
 	}
 	chunk := 1 + t.Draw(64)
-	dec, err := encoder.DecodeBytecodeFrom(&faultyReader{data: enc, chunk: chunk, failAt: -1}, mm)
-	rc.Fault("short-reads")
+	// in a third of the runs both generations travel through one in-memory pipe (a bytes.Buffer that is written,
+	// read, written again and read again without a Reset in between)
+	var pipe bytes.Buffer
+	pipeMode := t.Bool(1, 3)
+	var dec *ugo.Bytecode
+	if pipeMode {
+		pipe.Write(enc)
+		dec, err = encoder.DecodeBytecodeFrom(&pipe, mm)
+		rc.Fault("pipe-reused-for-next-generation")
+	} else {
+		dec, err = encoder.DecodeBytecodeFrom(&faultyReader{data: enc, chunk: chunk, failAt: -1}, mm)
+		rc.Fault("short-reads")
+	}
 	if err != nil {
 		rc.Decoded = map[string]any{"script": src}
 		rc.Fail("decode-failed", "decode-failed", "decoding what the encoder produced failed: %v\n%s", err, src)
 		return
 	}
 	// second generation: encode(decode(x)) decoded again
-	var buf2 bytes.Buffer
-	if err := encoder.EncodeBytecodeTo(dec, &buf2); err != nil {
+	buf2 := &bytes.Buffer{}
+	if pipeMode {
+		buf2 = &pipe
+	}
+	if err := encoder.EncodeBytecodeTo(dec, buf2); err != nil {
 		rc.Decoded = map[string]any{"script": src}
 		rc.Fail("encode-failed", "re-encode-failed", "re-encoding the decoded program failed: %v", err)
 		return
 	}
-	dec2, err := encoder.DecodeBytecodeFrom(&buf2, mm)
+	dec2, err := encoder.DecodeBytecodeFrom(buf2, mm)
 	if err != nil {
-		rc.Decoded = map[string]any{"script": src}
-		rc.Fail("decode-failed", "re-decode-failed", "decoding the re-encoded program failed: %v", err)
+		rc.Decoded = map[string]any{"script": src, "one_buffer_for_both_generations": pipeMode}
+		rc.Fail("decode-failed", "re-decode-failed", "decoding the re-encoded program failed (one buffer carried both generations: %v): %v", pipeMode, err)
 		return
 	}
 
